@@ -674,10 +674,10 @@ func (dr *dirRepo) gc() error {
 	// prune an empty repo dir and mark the repo as empty if successful
 	if *dr.conf.Storage.GC.EmptyRepo && len(dr.index.Manifests) == 0 && dr.uploads.IsEmpty() {
 		errDir := func() error {
-			errs := []error{}
 			for _, dir := range []string{
 				filepath.Join(dr.path, uploadDir),
 				filepath.Join(dr.path, blobsDir, "sha256"),
+				filepath.Join(dr.path, blobsDir, "sha384"),
 				filepath.Join(dr.path, blobsDir, "sha512"),
 				filepath.Join(dr.path, blobsDir),
 				filepath.Join(dr.path, indexFile),
@@ -686,12 +686,16 @@ func (dr *dirRepo) gc() error {
 			} {
 				err := os.Remove(dir)
 				if err != nil && !errors.Is(err, fs.ErrNotExist) {
-					errs = append(errs, err)
+					// content remains (e.g. recently uploaded blobs), keep the rest of the layout
+					return err
 				}
 			}
-			return errors.Join(errs...)
+			return nil
 		}()
 		if errDir == nil {
+			dr.exists = false
+		} else if _, err := os.Stat(filepath.Join(dr.path, layoutFile)); err != nil && errors.Is(err, fs.ErrNotExist) {
+			// the directory is held by other content (e.g. a nested repository) but is no longer a layout
 			dr.exists = false
 		}
 	}
